@@ -212,17 +212,17 @@ type Line struct {
 type Response struct {
 	// Prefix is sent before the status line (stray line ends or blanks such
 	// as "\r\n", "\n", " ", "\t", "\r\n\r\n"); normally empty.
-	Prefix     string `json:"prefix,omitempty"`
+	Prefix string `json:"prefix,omitempty"`
 	// RawStatusLine, if non-empty, is sent verbatim as the first line instead of
 	// Version SP Status [SP Reason] (for lines with fewer than two separators).
 	RawStatusLine string `json:"raw_status_line,omitempty"`
-	Version    string `json:"version"`                // token before the first SP, e.g. "HTTP/1.1"
-	Status     string `json:"status"`                 // token between the first and the second SP
-	NoReasonSP bool   `json:"no_reason_sp,omitempty"` // status line ends right after the status token (no second SP, no reason)
-	Reason     string `json:"reason"`                 // everything after the second SP
-	StatusLF   bool   `json:"status_lf,omitempty"`    // status line ends in bare LF
-	Lines      []Line `json:"lines"`
-	EndLF      bool   `json:"end_lf,omitempty"` // the empty line ending the head is a bare LF
+	Version       string `json:"version"`                // token before the first SP, e.g. "HTTP/1.1"
+	Status        string `json:"status"`                 // token between the first and the second SP
+	NoReasonSP    bool   `json:"no_reason_sp,omitempty"` // status line ends right after the status token (no second SP, no reason)
+	Reason        string `json:"reason"`                 // everything after the second SP
+	StatusLF      bool   `json:"status_lf,omitempty"`    // status line ends in bare LF
+	Lines         []Line `json:"lines"`
+	EndLF         bool   `json:"end_lf,omitempty"` // the empty line ending the head is a bare LF
 	// Trailing is what the server sends right after the head (WebSocket frames, usually).
 	Trailing []byte `json:"trailing,omitempty"`
 	// Cut > 0: the server sends only the first Cut bytes of the head and then
